@@ -174,6 +174,26 @@ def bs_case(rep, drv, rng, th):
 	rep.count('bs:dev<=2se' if dev <= 2 * se else ('bs:dev<=4se' if dev <= 4 * se else 'bs:dev>4se'))
 	if dev > 8 * se + 1e-9 * (1 + abs(ana)):
 		bad.append('long-run average cost %.6g over %d periods vs analytical %.6g: off by %.1f standard errors' % (avg, T - L, ana, dev / max(se, 1e-300)))
+	# "over all cost parameters and base-stock levels": the same network object, given other rates and another level, is simulated again;
+	# the pathwise identity (proved of the model for every path and every h, p, S) must hold with the NEW parameters
+	if kind != 'N' and rng.random() < .6:
+		h2 = rng.choice([x for x in (1, 2, 0.5, 0.25, 3) if x != h]); p2 = rng.choice([x for x in (4, 10, 2.5, 0.75, 6) if x != p]); S2 = max(0, int(S) + rng.choice([-3, -1, 2, 5]))
+		node = py['objs'][1]
+		node.local_holding_cost = h2; node.stockout_cost = p2; node.inventory_policy.base_stock_level = S2; node.initial_inventory_level = S2
+		sp2 = dict(spec); sp2['T'] = 300; sp2['seed'] = seed + 1
+		py2 = simlib.run_py(sp2, net_objs=(py['net'], py['objs']))
+		rep.count('bs:re-run-with-other-parameters')
+		if 'error' in py2:
+			bad.append('second simulation of the same network with h=%s p=%s S=%s raised %s' % (h2, p2, S2, py2['error']))
+		else:
+			dem2 = [st['edges'][1]['io'] for st in py2['trace']]
+			for t in range(300):
+				want = F(S2) - sum(dem2[max(0, t - L + 1):t + 1], F(0))
+				il2 = py2['trace'][t]['nodes'][0]['il']; tc2 = py2['trace'][t]['nodes'][0]['tc']
+				c = F(h2) * max(want, 0) + F(p2) * max(-want, 0)
+				if il2 != want or tc2 != c:
+					bad.append('same network re-simulated with h=%s p=%s S=%s: t=%d inventory level %s (S - lead-time demand = %s), cost charged %s but h*IL+ + p*IL- = %s' % (
+						h2, p2, S2, t, float(il2), float(want), float(tc2), float(c))); break
 	if bad or diffs:
 		rep.diff('single-stage-BS', '; '.join((bad + ['model/implementation differ: ' + d for d in diffs])[:3]), case,
 				 py={'avg': avg, 'se': se, 'analytical': ana}, oracle=bool(bad), theorem=THEOREM if not diffs else None)
